@@ -141,6 +141,18 @@ func of(m protoreflect.Message, expand func(url string, value []byte) protorefle
 	})
 	sort.Slice(s.Fields, func(i, j int) bool { return s.Fields[i].Num < s.Fields[j].Num })
 	s.Unknown = ParseUnknown(m.GetUnknown())
+	if x, ok := m.Descriptor().(interface{ IsMessageSet() bool }); ok && x.IsMessageSet() {
+		// unresolved MessageSet items: the table-driven decoder keeps the item's
+		// length prefix as it arrived, the reflection decoder re-encodes it;
+		// a non-minimal length prefix is not content
+		for i, u := range s.Unknown {
+			if u.Typ == protowire.BytesType {
+				if v, n := protowire.ConsumeBytes([]byte(u.Val)); n == len(u.Val) {
+					s.Unknown[i].Val = string(protowire.AppendBytes(nil, v))
+				}
+			}
+		}
+	}
 	if expand != nil && s.Type == "google.protobuf.Any" {
 		fs := m.Descriptor().Fields()
 		if inner := expand(m.Get(fs.ByNumber(1)).String(), m.Get(fs.ByNumber(2)).Bytes()); inner != nil {
